@@ -189,6 +189,15 @@ func (te *tableEngine) batchAddPlayers(players []JoinPlayer) error {
 	playerSeatIDs := make(map[string]int)
 	playerRandomSeatIDs := make([]string, 0)
 
+	// a batch must not name a player twice, nor a player who is already at the table
+	batchPlayerIDs := make(map[string]bool)
+	for _, p := range players {
+		if batchPlayerIDs[p.PlayerID] || te.table.FindPlayerIdx(p.PlayerID) != UnsetValue {
+			return seat_manager.ErrDuplicatePlayers
+		}
+		batchPlayerIDs[p.PlayerID] = true
+	}
+
 	for _, p := range players {
 		if p.Seat == seat_manager.UnsetSeatID {
 			playerRandomSeatIDs = append(playerRandomSeatIDs, p.PlayerID)
